@@ -39,12 +39,14 @@ SPEC = dict(
          "after dropping leading zeros, also the zero polynomial and constants), `rat <C|R> n1 d1` = solve(n1/d1), "
          "`rat2 <C|R> n1 d1 n2 d2` = solve(n1/d1 + n2/d2), `lin|lineq n rows b` = linsolve on a non-singular n x n rational "
          "system (matrix form / equation form, n = 1..5), `trig a1 b1 a2 b2 c` = solve(a1 sin x + b1 cos x + a2 sin 2x + "
-         "b2 cos 2x + c), `trigt a c` = solve(a tan x + c). distinct = distinct op lines; trivial = none (every op calls the "
+         "b2 cos 2x + c), `trigt a c` = solve(a tan x + c), `trign a b cre cim` = solve(a sin x + b cos x + (cre + cim I)) with "
+         "non-real solutions (|c| > sqrt(a^2+b^2) or complex c). distinct = distinct op lines; trivial = none (every op calls the "
          "solver). tags: poly:roots-d<k>-<root kinds q rational, m repeated, z zero, s surd pair, c complex pair>, "
          "poly:random-d<k>, poly:quartic-biquadratic (ff = 0), poly:quartic-g0, poly:cubic-delta1-zero, poly:repeated "
          "(delta = 0), poly:leading-zeros, poly:smallint, poly:fixed; rat:coprime / rat:common-factor / rat2:two-fractions / "
          "rat2:poly-plus-fraction / rat2:pole-cancelled; lin:/lineq: dense-int, sparse-int (zero pivots), rational, "
-         "antidiagonal (pivoting in every column), lin:singular (rank deficient: the library must throw); trig:sin-cos-const, trig:tan, trig:double-angle; known:F7-*, known:F8-* = "
+         "antidiagonal (pivoting in every column), lin:singular (rank deficient: the library must throw); trig:sin-cos-const, trig:tan, trig:double-angle; trign:cos-real-rhs / sin-real-rhs / complex-rhs / "
+         "sin-cos-real-rhs / sin-cos-complex-rhs (members substituted back, both analytic families required); known:F7-*, known:F8-* = "
          "families that exhibit the recorded findings (op lines end in #F7 / #F8)",
     not_covered=[
         "symbolic (non-numeric) coefficients, degree > 4 (ConditionSet), inequalities, Unequality, FLINT factorisation path "
